@@ -105,6 +105,8 @@ def _reads(expr: Optional[ast.AST], bound: Set[str] = frozenset()) -> List[ast.N
                 b |= _targets(g.target)
                 for c in g.ifs:
                     rec(c, b)
+                    # a walrus in a filter binds its name for the rest of the comprehension (and the element)
+                    b |= {x.target.id for x in ast.walk(c) if isinstance(x, ast.NamedExpr) and isinstance(x.target, ast.Name)}
             if isinstance(n, ast.DictComp):
                 rec(n.key, b)
                 rec(n.value, b)
